@@ -64,6 +64,16 @@ EXTRA_FUNCS = {
     'minimum2': lambda x, y: x - y,
     'maxi': lambda x, y: x + 2.0 * y,
 }
+# a harness-only namespace whose members are NAMED like the replaced functions but mean something else: `ns.exp(x)` must
+# stay `ns.exp(x)` in the generated code ("namespaced functions are left untouched"), whatever its last component is
+import types as _types
+_NS = _types.SimpleNamespace(exp=lambda x: x * 5.0 - 1.0, log=lambda x: x / 7.0 + 2.0,
+                             max=lambda x, y: x - 3.0 * y, min=lambda x, y: 2.0 * x + y)
+_NS.sub = _types.SimpleNamespace(log=lambda x: x * 11.0, max=lambda x, y: x * 0.5 - y)
+NS_FUNCS = {'ns.exp': _NS.exp, 'ns.log': _NS.log, 'ns.max': _NS.max, 'ns.min': _NS.min,
+            'ns.sub.log': _NS.sub.log, 'ns.sub.max': _NS.sub.max}
+EXTRA_FUNCS.update(NS_FUNCS)
+EXTRA_FUNCS['ns'] = _NS
 gs.FUNCS.update(EXTRA_FUNCS)
 gs.FUNCS.setdefault('np.log10', np.log10)
 gs.FUNCS.setdefault('np.exp', np.exp)
@@ -97,8 +107,9 @@ def stress_programs():
         out.append(gs.Program([gs.Equation(Y, B('-', T('param', 'a', -k), T('error', 'e', k)))]))
         out.append(gs.Program([gs.Equation(Y, B('*', V('Y', -k), V('X', k - 1)))]))
     for f in ('log10', 'explode', 'xexp', 'np.exp', 'np.log', 'np.log10', 'np.minimum', 'np.maximum', 'minimum2',
-              'maxi', 'exp', 'log', 'max', 'min', 'abs', 'np.sqrt'):
-        two = f in ('np.minimum', 'np.maximum', 'minimum2', 'maxi', 'max', 'min')
+              'maxi', 'exp', 'log', 'max', 'min', 'abs', 'np.sqrt', 'ns.exp', 'ns.log', 'ns.max', 'ns.min',
+              'ns.sub.log', 'ns.sub.max'):
+        two = f in ('np.minimum', 'np.maximum', 'minimum2', 'maxi', 'max', 'min', 'ns.max', 'ns.min', 'ns.sub.max')
         args = (V('X', -1), V('Z')) if two else (V('X', -1),)
         out.append(gs.Program([gs.Equation(Y, B('+', C(f, args), N('1')))]))
         out.append(gs.Program([gs.Equation(Y, C('exp', (B('-', C(f, args), C('log', (V('W'),))),)))]))
